@@ -44,7 +44,9 @@ pub fn level_of(check: &str) -> &'static str {
 
 /// Properties whose statement itself forbids panics on the paths this check exercises.
 fn panic_is_violation(check: &str) -> bool {
-    matches!(check, "C04" | "C05" | "C10" | "C14")
+    // ... and the liveness properties: a station that has panicked never joins a ring, never brings
+    // a peripheral back and never completes a scan.
+    matches!(check, "C04" | "C05" | "C10" | "C14" | "C02" | "C06" | "C07" | "C18")
 }
 
 pub fn build_monitors(sc: &Scenario, w: &World) -> Vec<Box<dyn Monitor>> {
@@ -252,12 +254,13 @@ pub fn hang_is_violation(check: &str) -> bool {
 
 pub fn probe_names(check: &str) -> Vec<&'static str> {
     match check {
-        "C01" | "C02" => vec!["probe.more_than_one_telegram_in_buffer", "probe.self_offline_address_collision"],
+        "C01" => vec!["probe.more_than_one_telegram_in_buffer", "probe.self_offline_address_collision", "probe.excluded_unsynchronised_claim_race"],
+        "C02" => vec!["probe.more_than_one_telegram_in_buffer", "probe.self_offline_address_collision"],
         "C18" => vec!["probe.more_than_one_telegram_in_buffer"],
         "C10" => vec!["probe.late_rejection", "probe.delimiter_substitution_decodes_differently", "probe.more_than_one_telegram_in_buffer"],
         "C16" => vec!["probe.is_last_telegram_false_delivered", "probe.more_than_one_telegram_in_buffer", "probe.clean_telegram_after_discard_delivered"],
         "C05" => vec!["probe.more_than_one_telegram_in_buffer", "probe.self_offline_address_collision"],
-        "C11" => vec!["probe.token_accepted_from_new_predecessor_on_second_offer", "probe.second_pass_attempt", "probe.third_pass_attempt", "probe.successor_removed", "probe.token_passed_to_self"],
+        "C11" => vec!["probe.token_accepted_from_new_predecessor_on_second_offer", "probe.token_accepted_as_last_of_several_telegrams_in_one_poll", "probe.second_pass_attempt", "probe.third_pass_attempt", "probe.successor_removed", "probe.token_passed_to_self"],
         "C12" => vec!["probe.gap_poll_discovered_a_master", "probe.status_reply_not_ready", "probe.status_reply_ready", "probe.status_reply_in_ring"],
         "C06" => vec!["probe.self_offline_address_collision", "probe.more_than_one_telegram_in_buffer"],
         "C13" => vec!["probe.hold_time_already_over_at_first_cycle"],
